@@ -108,6 +108,38 @@ Theorem C16_distinct_ids_needed :
 Proof. exact reusable_shared_tid_refuted. Qed.
 Print Assumptions C16_distinct_ids_needed.
 
+(* THREADS SHARING AN ID -- nested queries and recycled thread idents.  A nested query (a trial of the running
+   search asks the same optimizer object about another contraction on the same thread, as
+   PartitionTreeBuilder.build_divide does through super_optimize) is, for the shared state, a second thread with
+   the SAME id that runs a whole query while the outer one is parked inside its trial.  The theorems above
+   generalise from "distinct ids" to the discipline Threads.disciplined: whenever a thread steps, no OTHER thread
+   with its id is between publishing its slot and fetching from it (pcs PRCacheSet/PRCacheOld/PRFetch).  All
+   modes except the stale non-caching Auto, every oracle, every disciplined schedule. *)
+Theorem C16_returns_own_tree_shared_ids :
+  forall cfg orc, c_mode cfg <> MAutoUncached ->
+  forall sched ths, Forall fresh_thread ths ->
+  disciplined cfg orc sched (init_state cfg) ths = true ->
+  forall st' ths' tr, run cfg orc sched (init_state cfg) ths = (st', ths', tr) ->
+  Forall (results_own orc) ths'.
+Proof. exact all_results_own_disciplined. Qed.
+Print Assumptions C16_returns_own_tree_shared_ids.
+
+(* distinct ids are the special case: every schedule is disciplined *)
+Theorem C16_distinct_ids_are_disciplined :
+  forall cfg orc sched st ths, NoDup (map t_id ths) -> disciplined cfg orc sched st ths = true.
+Proof. exact nodup_disciplined. Qed.
+Print Assumptions C16_distinct_ids_are_disciplined.
+
+(* non-vacuity for nesting: position 1 (same id 7) runs its whole query while position 0 is inside its first trial;
+   the schedule is disciplined and both get their own trees; parking position 0 at PRFetch instead (what
+   "publish the slot before the search" amounts to) violates the discipline *)
+Example C16_nested_query :
+  disciplined nest_cfg nest_orc nest_sched (init_state nest_cfg) nest_threads = true /\
+  enc_results (snd (fst (run nest_cfg nest_orc nest_sched (init_state nest_cfg) nest_threads)))
+  = [[[0; 0; 0; 0; 0]]; [[1; 0; 1; 1; 0]]] /\
+  disciplined nest_cfg nest_orc ([0;0;0;0;0;0;0] ++ repeat 1 8 ++ [0]) (init_state nest_cfg) nest_threads = false.
+Proof. exact nested_example. Qed.
+
 (* verified checker: used by the correspondence on the results of every modelled run *)
 Theorem C16_checker_sound :
   forall orc ths, all_own_b orc ths = true -> Forall (results_own orc) ths.
